@@ -70,3 +70,20 @@ harness! {
             "C18 C19 a clone taken during fill-up keeps filling up in order");
     }
 }
+
+// extend() on a sampler that is already past fill-up (i > k), with an iterator whose size hint is far above k: no panic,
+// still a valid sample, and the reservoir's allocation does not grow with the stream (bounded: k = 1, one concrete history)
+harness! {
+    #[kani::unwind(12)]
+    fn c18_reservoir_extend_after_fillup() {
+        let mut rs = ReservoirSampling::<usize, ConstRng>::new(1, ConstRng(0));
+        rs.add(0);
+        rs.add(1);
+        rs.add(2);
+        let cap0 = rs.reservoir.capacity();
+        rs.extend(vec![3usize, 4, 5, 6, 7, 8]);
+        assert!(rs.i() == 9, "C18 i() counts the items fed through extend");
+        assert!(rs.reservoir().len() == 1 && rs.reservoir()[0] < 9, "C18 exactly k items, each one of the added items");
+        assert!(rs.reservoir.capacity() == cap0, "C11 extend does not allocate beyond the k-item reservoir");
+    }
+}
